@@ -12,6 +12,7 @@ import math
 
 import numpy as np
 
+from vmon import faults
 from vmon import refmodel as R
 from vmon import taps, world
 from vmon.props import c01 as base
@@ -42,7 +43,8 @@ REQUIRED = dict(monitors=['intensity-per-angle', 'flux', 'eclipse-spectrum', 'di
                 classes=['model:emission', 'model:directimage', 'clamp-possible', 'no-clamp', 'ngauss:1', 'ngauss:8',
                          'T:isothermal', 'T:array', 'magnitude:transparent', 'magnitude:saturating',
                          'rerun:evaluated-after-change', 'mode:ktable', 'ktable:continuum-only-model',
-                         'ktable:model_contrib-entry-judged', 'ktable-mode:no-molecular-absorber'])
+                         'ktable:model_contrib-entry-judged', 'ktable-mode:no-molecular-absorber',
+                         'fault:fired:temperature', 'fault:fired:chemistry', 'fault:fired:contribution', 'fault:fired:pressure'])
 CUT = math.exp(-10.0)
 _state = {}
 
@@ -55,6 +57,7 @@ def classify(f):
 
 def setup(ctx):
     from taurex.model import EmissionModel, DirectImageModel
+    faults.install(ctx)
     problems = R.self_test()
     if problems:
         ctx.check('refmodel-selftest', False, problems=problems)
@@ -99,6 +102,7 @@ def setup(ctx):
 
 def teardown(ctx):
     taps.untap_all()
+    faults.uninstall()
 
 
 def pick_contribs(rng, spec):
@@ -421,6 +425,12 @@ def wl_rerun(ctx, rng):
         changes = base.perturb_model(rng, model)
         changes_all.append([(n, float(a), float(b)) for n, a, b in changes])
         ctx.feature(summary=world.spec_summary(spec), kind=kind, ngauss=spec['ngauss'], changes=changes_all)
+        if rng.random() < 0.4:
+            site = faults.drive_into(ctx, rng, model.model)      # a rejected evaluation in between
+            if site == 'rejected':
+                return
+            if site:
+                changes_all[-1].append(('fault:' + site, 0.0, 0.0))
         _state['snap'] = None
         try:
             out = model.model()
